@@ -208,10 +208,11 @@ impl TraitHandler for OrdEnumHandler {
         if arms_token_stream.is_empty() {
             cmp_token_stream.extend(quote!(::core::cmp::Ordering::Equal));
         } else {
+            let self_discriminant = discriminant_type.discriminant_match(ast, quote!(self));
+            let other_discriminant = discriminant_type.discriminant_match(ast, quote!(other));
+
             let discriminant_cmp = quote! {
-                unsafe {
-                    ::core::cmp::Ord::cmp(&*<*const _>::from(self).cast::<#discriminant_type>(), &*<*const _>::from(other).cast::<#discriminant_type>())
-                }
+                ::core::cmp::Ord::cmp(&#self_discriminant, &#other_discriminant)
             };
 
             cmp_token_stream.extend(if all_unit {
